@@ -1,6 +1,7 @@
 import PV.C17.Model
 import PV.C17.Spec
 import PV.C17.Lemmas
+import PV.C17.Clamp
 /-
   C17 — property theorems.  Helper lemmas live in `PV/C17/Lemmas.lean`.
 -/
@@ -367,7 +368,8 @@ example : expSuffix (-324) = [45, 51, 50, 52] := by decide +kernel
 theorem format_fixed_eq_printf (prec bits : Nat) (upper alt : Bool)
     (h : isFinite bits = true ∨ isNeg bits = false) :
     formatFixed prec bits upper alt = cPrintfF prec bits upper alt := by
-  unfold formatFixed cPrintfF
+  rw [formatFixed_unclamped]
+  unfold cPrintfF
   by_cases hf : isFinite bits = true
   · simp only [hf, if_true, Bool.not_true, Bool.false_eq_true, if_false]
     unfold toFixedL decimalPointOrEmpty
@@ -387,7 +389,8 @@ theorem format_fixed_eq_printf (prec bits : Nat) (upper alt : Bool)
 theorem format_exponent_eq_printf (prec bits : Nat) (upper alt : Bool)
     (h : isFinite bits = true ∨ isNeg bits = false) :
     formatExponent prec bits upper alt = cPrintfE prec bits upper alt := by
-  unfold formatExponent cPrintfE
+  rw [formatExponent_unclamped]
+  unfold cPrintfE
   by_cases hf : isFinite bits = true
   · simp only [hf, if_true, Bool.not_true, Bool.false_eq_true, if_false]
     unfold toExpL decimalPointOrEmpty eChar
@@ -422,7 +425,8 @@ example : formatExponent 0 0x4014000000000000 false true = [53, 46, 101, 43, 48,
 /-- the body of `format_general` is `%g` for every precision ≥ 1 -/
 theorem general_core_eq_printf (prec bits : Nat) (upper alt : Bool) (hp : 1 ≤ prec) (hs : isNeg bits = false) :
     formatGeneralCore prec bits upper alt false = cPrintfG prec bits upper alt := by
-  unfold formatGeneralCore cPrintfG
+  rw [formatGeneralCore_unclamped prec bits upper alt false hs]
+  unfold cPrintfG
   by_cases hf : isFinite bits = true
   · have hp0 : ¬ prec = 0 := by omega
     simp only [hf, if_true, Bool.not_true, Bool.false_eq_true, if_false, hp0, hs]
